@@ -4,6 +4,8 @@ import Hcl.Model.GraphExec
 import Driver.Decode
 import Hcl.Spec.Machine
 import Hcl.Spec.Accept
+import Hcl.Model.Disasm
+import Hcl.Spec.Y86
 
 /-! Line-protocol driver: one request S-expression per input line, one answer line per request.
     Answer format: `M <model result> ;; S <spec result>`. -/
@@ -203,6 +205,41 @@ def handleRun (fields : List SExp) : String :=
       s!"M {model} ;; S {spec}"
   | _ => "bad-request no-stmts"
 
+def handleDisasm (args : List SExp) : String :=
+  match args with
+  | [.atom v] =>
+    match v.toNat? with
+    | none => "bad-request"
+    | some value =>
+      let (n, text) := disassemble value
+      let bytes := (List.range 10).map fun i => (value / 256 ^ i) % 256
+      let spec : String := match Spec.decode bytes with
+        | some i => s!"{(Spec.encode i).length}|{Spec.pretty i}"
+        | none => if (bytes.getD 0 0) / 16 > 11 then "1|<invalid>" else "unspecified"
+      s!"M {n}|{text} ;; S {spec}"
+  | _ => "bad-request"
+
+def handleTrace (args : List SExp) : String :=
+  match args with
+  | [.atom pcs, .list (.atom "mem" :: bytes)] =>
+    let pc := pcs.toNat?.getD 0
+    let image : List (Nat × Nat) := (pairList bytes).filterMap fun p =>
+      match p.1.toNat?, p.2.toNat? with | some a, some b => some (a, b) | _, _ => none
+    let mem : Nat → Nat := fun a => (image.lookup a).getD 0
+    let value := Spec.rdLE mem pc 10
+    let model := traceLine pc value
+    -- specification: pc, then the bytes of the instruction in memory order, then its CS:APP text
+    let bytes := (List.range 10).map fun i => mem ((pc + i) % 2 ^ 64)
+    let spec : String := match Spec.decode bytes with
+      | some i =>
+        let n := (Spec.encode i).length
+        "pc = 0x" ++ toHex pc ++ "; loaded [" ++ String.join ((bytes.take n).map fun b => toHexPad 2 b ++ " ") ++ ": " ++ Spec.pretty i ++ "]"
+      | none => if (bytes.getD 0 0) / 16 > 11 then
+          "pc = 0x" ++ toHex pc ++ "; loaded [" ++ toHexPad 2 (bytes.getD 0 0) ++ " : <invalid>]"
+        else "unspecified"
+    s!"M {model} ;; S {spec}"
+  | _ => "bad-request"
+
 def handle (line : String) : String :=
   match SExp.parse line with
   | none => "bad-request unparsable"
@@ -211,6 +248,8 @@ def handle (line : String) : String :=
     | some ("graph", fields) => handleGraph fields
     | some ("prog", fields) => handleProg fields
     | some ("run", fields) => handleRun fields
+    | some ("disasm", args) => handleDisasm args
+    | some ("trace", args) => handleTrace args
     | some (t, _) => s!"bad-request unknown-tag {t}"
     | none => "bad-request no-tag"
 
